@@ -36,7 +36,7 @@ ASSUMPTIONS = ["explicit key mappings (the inferred map is C17's subject)", "pan
 REQUIRED_CLASSES = {t: ["c12:ids=str", "c12:ids=noncontig", "c12:ids=float", "c12:renamed", "c12:3D",
                         "c12:malformed:duplicate_id", "c12:malformed:unknown_parent", "c12:malformed:self_link",
                         "c12:malformed:missing_column", "c12:malformed:unmapped_key", "part:geff",
-                        "c12:crossed_single_value_names", "c12:non_default_index", "c12:geff_malformed:duplicate_id",
+                        "c12:crossed_single_value_names", "c12:non_default_index", "c12:via_csv_file", "c12:geff_malformed:duplicate_id",
                         "c12:geff_malformed:unknown_parent", "c12:geff_malformed:self_link"]
                     for t in ("quick", "thorough")}
 
@@ -112,6 +112,7 @@ def sources(draw, geff=False):
             "pos_order": list(pos_order), "customs": customs,
             "root": draw(st.sampled_from(["minus1", "nan", "empty"])),
             "shuffle": draw(st.integers(0, 8)), "index_mode": draw(st.sampled_from([0, 0, 1, 2, 3, 4])),
+            "via_file": draw(st.integers(0, 3)) == 0,
             "mutation": draw(st.sampled_from([None, None, None, "duplicate_id", "unknown_parent", "self_link",
                                               "missing_column", "unmapped_key", "mapped_to_missing"])),
             "mpick": draw(st.integers(0, 100))}
@@ -246,7 +247,22 @@ def probe_df(inp) -> ProbeResult:
     try:
         with warnings.catch_warnings():
             warnings.simplefilter("ignore")
-            tracks = tracks_from_df(df, node_name_map=dict(nm))
+            if inp.get("via_file"):
+                # the same table through a CSV file and the builder API
+                from funtracks.import_export import CSVTracksBuilder
+
+                tmpd = Path(tempfile.mkdtemp(prefix="verif-c12-"))
+                try:
+                    df.to_csv(tmpd / "t.csv", index=False)
+                    b = CSVTracksBuilder()
+                    b.read_header(tmpd / "t.csv")
+                    b.node_name_map = dict(nm)
+                    tracks = b.build(tmpd / "t.csv")
+                finally:
+                    shutil.rmtree(tmpd, ignore_errors=True)
+                res.tags.append("c12:via_csv_file")
+            else:
+                tracks = tracks_from_df(df, node_name_map=dict(nm))
     except Exception as e:  # noqa: BLE001 - a well-formed source must import
         res.fail(f"wellformed_refused:{type(e).__name__}:ids={inp['idkind']}",
                  f"well-formed table (ids {inp['idkind']}, roots {inp['root']}, renamed={inp['renamed']}) raised {e!r}")
